@@ -109,6 +109,10 @@ def detect(name, pids):
   sh('git -C /repo worktree add -f %s HEAD' % wt)
   rc, o = sh('git apply --whitespace=nowarn %s/patch.diff' % dst, cwd=wt)
   if rc != 0:
+    rc, o = sh('git apply --3way --whitespace=nowarn %s/patch.diff' % dst, cwd=wt)
+  if rc != 0:
+    rc, o = sh('patch -p1 -F3 --binary < %s/patch.diff' % dst, cwd=wt)
+  if rc != 0:
     print('patch does not apply', o)
     sh('git -C /repo worktree remove --force %s' % wt)
     return 2
